@@ -1574,6 +1574,10 @@ impl Visit for TypeDeclarationCollector<'_> {
                 .body
                 .body
                 .extend_from_slice(&ts_interface_decl.body.body);
+            // every declaration of a merged interface contributes its parents
+            interface
+                .extends
+                .extend_from_slice(&ts_interface_decl.extends);
         } else {
             self.interfaces.insert(key, ts_interface_decl.clone());
         }
